@@ -313,6 +313,76 @@ def check_handed_on(case):
     return None
 
 
+def check_hdl_valued(_):
+    """HDL-object-valued parameters that differ only in where they come from: external modules of one name in two
+    domains, generators / modules of one name written in two Python modules - all of which one design may hold side by side"""
+    import hdl21 as h
+    import importlib
+    import shutil
+    import sys
+    import tempfile
+    w = {"case": "hdl-valued"}
+    d = tempfile.mkdtemp(prefix="c09mods")
+    src = ("import hdl21 as h\n@h.generator\ndef Cell(p: h.HasNoParams) -> h.Module:\n    m = h.Module()\n    m.a = h.Port()\n"
+           "    {extra}\n    return m\nUnit = h.Module(name='Unit')\nUnit.a = h.Port()\n{extra2}\n"
+           "Ext = h.ExternalModule(name='Ext', port_list=[h.Inout(name='a'){extra3}], desc='', domain='dd')\n")
+    try:
+        for nm, extra, extra2, extra3 in (("c09_mod_a", "pass", "", ""),
+                                          ("c09_mod_b", "m.b = h.Port()", "Unit.b = h.Port()", ", h.Inout(name='b')")):
+            with open(f"{d}/{nm}.py", "w") as f:
+                f.write(src.format(extra=extra, extra2=extra2, extra3=extra3))
+        sys.path.insert(0, d)
+        ma, mb = importlib.import_module("c09_mod_a"), importlib.import_module("c09_mod_b")
+    finally:
+        if d in sys.path:
+            sys.path.remove(d)
+        shutil.rmtree(d, ignore_errors=True)
+    try:
+        E1 = h.ExternalModule(name="E", port_list=[h.Inout(name="a")], desc="", domain="d1")
+        E2 = h.ExternalModule(name="E", port_list=[h.Inout(name="a"), h.Inout(name="b")], desc="", domain="d2")
+
+        @h.paramclass
+        class HP:
+            u = h.Param(dtype=object, desc="u", default=None)
+
+        @h.generator
+        def Over(p: HP) -> h.Module:
+            m = h.Module()
+            tgt = p.u
+            if isinstance(tgt, h.Generator):
+                tgt = tgt()
+            elif isinstance(tgt, h.ExternalModule):
+                tgt = tgt()
+            for n in tgt.ports:
+                m.add(h.Port(name=n))
+            m.i = tgt(**{n: m.get(n) for n in tgt.ports})
+            return m
+        groups = {"external modules d1.E / d2.E": (E1, E2), "calls of d1.E / d2.E": (E1(), E2()),
+                  "generators a.Cell / b.Cell": (ma.Cell, mb.Cell), "modules a.Unit / b.Unit": (ma.Unit, mb.Unit),
+                  "external modules a.Ext / b.Ext (one domain: they clash themselves)": None}
+        for what, pair in groups.items():
+            if pair is None:
+                continue
+            a, b = Over(u=pair[0]), Over(u=pair[1])
+            if a is b:
+                return ("memo.unequal-shared", f"{what}: two different parameter values share one generated module", w)
+            if a.name == b.name:
+                return ("names.collide/hdl-valued", f"{what} as parameter values: two different generated modules are both "
+                                                   f"named {a.name!r}", w)
+            top = h.Module(name="HdlValuedTop")
+            top.s, top.t = h.Signal(), h.Signal()
+            top.x = a(**{n: (top.s if n == "a" else top.t) for n in a.ports})
+            top.y = b(**{n: (top.s if n == "a" else top.t) for n in b.ports})
+            try:
+                h.to_proto(top)
+            except Exception as e:
+                return ("names.export", f"{what}: the design holding both generated modules does not export: {str(e)[:140]}", w)
+    finally:
+        for nm in ("c09_mod_a", "c09_mod_b"):
+            sys.modules.pop(nm, None)
+    return None
+
+
 def check_string_pairs(alphabet):
     """names of a two-string parameter class over every pair of strings made of up to three pieces of `alphabet`: two
     different pairs never share a name (pieces: a letter, the ` b=` separator shape, a white-space / line-break
@@ -462,6 +532,10 @@ def run(ctx):
                          "(3 call orders), a chain of three generators; a named result exported / qualified / used as a parameter inside the "
                          "body; names and exported names before/after",
                     bound="4 programs", key_of=repr)
+    ctx.run_bounded("hdl-valued-parameters", ["all"], check_hdl_valued,
+                    rule="external modules of one name in two domains (and calls of them), generators and modules of one "
+                         "name written in two Python modules, as parameter values of one generator: distinct modules, "
+                         "distinct names, and the design holding both exports", bound="4 pairs", key_of=repr)
     ctx.run_bounded("string-pair-names", ALPHABETS if ctx.tier == "thorough" else ALPHABETS[:3], check_string_pairs,
                     rule="every pair of strings built from up to three pieces of a small alphabet (a letter, the ` b=` "
                          "separator shape, `=`, blank, tab, line breaks, `None`): different pairs get different names",
@@ -481,6 +555,8 @@ def replay(payload):
     inp = payload.get("input") or (payload.get("replay") or {}).get("input") or {}
     if inp.get("case") in ("handed-on", "self-handed-on", "chain", "used-before-returned"):
         r = check_handed_on(inp["case"])
+    elif inp.get("case") == "hdl-valued":
+        r = check_hdl_valued(0)
     elif inp.get("case") == "string-pairs":
         r = check_string_pairs(tuple(inp["alphabet"]))
     elif inp.get("case") == "long-session":
